@@ -7,6 +7,8 @@ import (
 	"time"
 
 	"github.com/vmware/go-ipfix/pkg/entities"
+	"github.com/vmware/go-ipfix/pkg/collector"
+	"github.com/vmware/go-ipfix/pkg/exporter"
 	"github.com/vmware/go-ipfix/pkg/intermediate"
 	"github.com/vmware/go-ipfix/pkg/verifshim/vsched"
 
@@ -30,7 +32,8 @@ type c05inc struct {
 var c05incs = []c05inc{
 	{"+0", [4]uint64{0, 0, 0, 0}, [4]uint64{0, 0, 0, 0}},
 	{"+small", [4]uint64{1, 100, 2, 300}, [4]uint64{1, 100, 2, 300}},
-	{"+huge", [4]uint64{1 << 32, 1 << 40, 3 << 31, 5 << 38}, [4]uint64{1 << 33, 1 << 41, 1 << 20, 7}},
+	// octet totals beyond 2^53 with low bits set: exact in integer arithmetic, not in float64
+	{"+huge", [4]uint64{1 << 32, 1<<56 + 3, 3 << 31, 1<<55 + 5}, [4]uint64{1 << 33, 1 << 41, 1 << 20, 7}},
 }
 
 type c05op struct {
@@ -71,7 +74,80 @@ type c05gen struct { // per key, per stream generator state survives flow deleti
 	nEnd [2]uint32
 }
 
+// c05pipe: records reach the aggregation process the way they do in a deployment - encoded into an IPFIX
+// message by the library, decoded by a real collecting process, and handed on as delivered.
+type c05pipe struct {
+	cp   *collector.CollectingProcess
+	ch   chan *entities.Message
+	tmpl map[string]uint16
+	seq  uint32
+}
+
+func newC05pipe() *c05pipe {
+	cp, err := collector.VerifInitCollectingProcess(collector.CollectorInput{Address: "127.0.0.1:0", Protocol: "tcp", MaxBufferSize: 65535, TemplateTTL: 0}, nil)
+	if err != nil {
+		panic(err)
+	}
+	p := &c05pipe{cp: cp, ch: make(chan *entities.Message, 4), tmpl: map[string]uint16{}}
+	cp.VerifSetMsgChan(p.ch)
+	return p
+}
+
+func (p *c05pipe) decode(set entities.Set) *entities.Message {
+	set.UpdateLenInHeader()
+	b, err := exporter.CreateIPFIXMsg(set, 77, p.seq, vsched.S.Now)
+	if err != nil {
+		panic(err)
+	}
+	m, err := p.cp.VerifDecodePacket(b, "10.0.0.9:4739")
+	if err != nil {
+		panic(fmt.Sprintf("pipeline: the collector refused a message the library encoded: %v", err))
+	}
+	for vsched.Len(p.ch) > 0 { // (channels of rewritten packages live in the scheduler's model)
+		vsched.Recv((<-chan *entities.Message)(p.ch))
+	}
+	return m
+}
+
+func (p *c05pipe) through(recs ...entities.Record) *entities.Message {
+	// one template per record layout (IPv4 / IPv6 flows list different elements); records of one message
+	// share a layout by construction of the alphabet
+	sig := ""
+	for _, e := range recs[0].GetOrderedElementList() {
+		sig += e.GetName() + ","
+	}
+	tid, ok := p.tmpl[sig]
+	if !ok {
+		tid = uint16(256 + len(p.tmpl))
+		p.tmpl[sig] = tid
+		ts := entities.NewSet(false)
+		ts.PrepareSet(entities.Template, tid)
+		var els []entities.InfoElementWithValue
+		for _, e := range recs[0].GetOrderedElementList() {
+			t, err := entities.DecodeAndCreateInfoElementWithValue(e.GetInfoElement(), nil)
+			if err != nil {
+				panic(err)
+			}
+			els = append(els, t)
+		}
+		if err := ts.AddRecord(els, tid); err != nil {
+			panic(err)
+		}
+		p.decode(ts)
+	}
+	ds := entities.NewSet(false)
+	ds.PrepareSet(entities.Data, tid)
+	for _, r := range recs {
+		if err := ds.AddRecord(r.GetOrderedElementList(), tid); err != nil {
+			panic(err)
+		}
+	}
+	p.seq += uint32(len(recs))
+	return p.decode(ds)
+}
+
 type c05sys struct {
+	pipe   *c05pipe
 	ops    []c05op
 	ap     *intermediate.AggregationProcess
 	model  map[int]*c05flow
@@ -203,49 +279,41 @@ func (s *c05sys) compare(ctx string, k int, f *c05flow, rec entities.Record) *xp
 	return nil
 }
 
-func (s *c05sys) Apply(opi int) (v *xplore.Violation) {
-	defer func() {
-		if r := recover(); r != nil {
-			v = xplore.V("panic", "%s panicked: %v", s.ops[opi].name, r)
+// prepRec builds the record an 'r' operation stands for (advancing the generator state of its stream) and
+// returns the model update to apply once the aggregation process has taken it.
+func (s *c05sys) prepRec(op c05op) (entities.Record, func()) {
+	g := s.gen[op.key]
+	inc := c05incs[op.inc]
+	nodes := []int{0, 1}
+	gi := 0
+	switch op.stream {
+	case aggfix.Src:
+		nodes = []int{0}
+	case aggfix.Dst:
+		nodes, gi = []int{1}, 1
+	}
+	// per reporting stream: end strictly increases (destination-node ends are odd, source/single even: no cross-node ties)
+	if g.nEnd[gi] == 0 {
+		g.nEnd[gi] = c05Start
+		if gi == 1 {
+			g.nEnd[gi] = c05Start + 1
 		}
-	}()
-	op := s.ops[opi]
-	switch op.kind {
-	case 'r':
-		g := s.gen[op.key]
-		inc := c05incs[op.inc]
-		nodes := []int{0, 1}
-		gi := 0
-		switch op.stream {
-		case aggfix.Src:
-			nodes = []int{0}
-		case aggfix.Dst:
-			nodes, gi = []int{1}, 1
-		}
-		// per reporting stream: end strictly increases (destination-node ends are odd, source/single even: no cross-node ties)
-		if g.nEnd[gi] == 0 {
-			g.nEnd[gi] = c05Start
-			if gi == 1 {
-				g.nEnd[gi] = c05Start + 1
-			}
-		}
-		g.nEnd[gi] += op.dEnd
-		var dl [4]uint64
-		for i := 0; i < 4; i++ {
-			g.nTot[gi][i] += inc.tot[i]
-			dl[i] = inc.dl[i]
-		}
-		end, tot := g.nEnd[gi], g.nTot[gi]
-		flowType, from := uint8(1), aggfix.Both
-		if op.stream != aggfix.Both {
-			flowType, from = 2, op.stream
-		}
-		start := c05StartOf(gi)
-		rec := aggfix.Record(aggfix.Spec{Key: op.key, FlowType: flowType, Egress: 1, From: from, Start: start, End: end,
-			PktTot: tot[0], OctTot: tot[1], RPktTot: tot[2], ROctTot: tot[3], PktDelta: dl[0], OctDelta: dl[1], RPktDelta: dl[2], ROctDelta: dl[3], TCPState: "ESTABLISHED"})
-		if err := s.ap.AggregateMsgByFlowKey(aggfix.Msg(rec)); err != nil {
-			return xplore.V("aggregate-error", "%s: %v", op.name, err)
-		}
+	}
+	g.nEnd[gi] += op.dEnd
+	var dl [4]uint64
+	for i := 0; i < 4; i++ {
+		g.nTot[gi][i] += inc.tot[i]
+		dl[i] = inc.dl[i]
+	}
+	end, tot := g.nEnd[gi], g.nTot[gi]
+	flowType, from := uint8(1), aggfix.Both
+	if op.stream != aggfix.Both {
+		flowType, from = 2, op.stream
+	}
+	start := c05StartOf(gi)
+	rec := aggfix.Record(aggfix.Spec{Key: op.key, FlowType: flowType, Egress: 1, From: from, Start: start, End: end,
+		PktTot: tot[0], OctTot: tot[1], RPktTot: tot[2], ROctTot: tot[3], PktDelta: dl[0], OctDelta: dl[1], RPktDelta: dl[2], ROctDelta: dl[3], TCPState: "ESTABLISHED"})
+	return rec, func() {
 		f, ok := s.model[op.key]
 		if !ok {
 			f = &c05flow{end: end, dl: dl, first: op.stream}
@@ -313,6 +381,41 @@ func (s *c05sys) Apply(opi int) (v *xplore.Violation) {
 				f.thr, f.rthr = thr, rthr
 			}
 		}
+	}
+}
+
+// message wraps records the way the configuration says: hand-built (as decoded records look), or - pipeline
+// mode - encoded by the library, decoded by a real collecting process and handed on as it delivers them.
+func (s *c05sys) message(recs ...entities.Record) *entities.Message {
+	if s.pipe == nil {
+		return aggfix.Msg(recs...)
+	}
+	return s.pipe.through(recs...)
+}
+
+func (s *c05sys) Apply(opi int) (v *xplore.Violation) {
+	defer func() {
+		if r := recover(); r != nil {
+			v = xplore.V("panic", "%s panicked: %v", s.ops[opi].name, r)
+		}
+	}()
+	op := s.ops[opi]
+	switch op.kind {
+	case 'r':
+		rec, commit := s.prepRec(op)
+		if err := s.ap.AggregateMsgByFlowKey(s.message(rec)); err != nil {
+			return xplore.V("aggregate-error", "%s: %v", op.name, err)
+		}
+		commit()
+	case 'm':
+		// one message carrying records of two unrelated flows (same record layout)
+		r1, c1 := s.prepRec(c05op{kind: 'r', key: 1, stream: aggfix.Both, dEnd: 2, inc: 1})
+		r2, c2 := s.prepRec(c05op{kind: 'r', key: 0, stream: aggfix.Src, dEnd: 2, inc: 1})
+		if err := s.ap.AggregateMsgByFlowKey(s.message(r1, r2)); err != nil {
+			return xplore.V("aggregate-error", "%s: %v", op.name, err)
+		}
+		c1()
+		c2()
 	case 'z':
 		err := s.ap.ForAllRecordsDo(func(key intermediate.FlowKey, rec *intermediate.AggregationFlowRecord) error {
 			return s.ap.ResetStatAndThroughputElementsInRecord(rec.Record)
@@ -436,6 +539,21 @@ func c05Configs(tier string) []*xplore.Config {
 		HistDepth: 4,
 		Interesting: func(cn string) bool { return strings.Count(cn, "k") >= 1 },
 	}}
+	pops := append(append([]c05op{}, ops...), c05op{name: "Msg(k1 single, k0 src; dEnd=2, +small) in one set", kind: 'm'})
+	pd := 3
+	if tier == "thorough" {
+		pd = 4
+	}
+	cfgs = append(cfgs, &xplore.Config{
+		Name: "antrea-elements,through-collector", NumOps: len(pops), OpName: func(i int) string { return pops[i].name },
+		New: func() xplore.Sys {
+			s := newC05(pops)
+			s.pipe = newC05pipe()
+			return s
+		},
+		HistDepth:   pd,
+		Interesting: func(cn string) bool { return strings.Count(cn, "k") >= 1 },
+	})
 	if tier == "thorough" {
 		// deeper histories over a reduced alphabet (one end-time step, increments +small/+huge; 27^5
 		// histories of the full alphabet take more than 20 minutes), plus a small de-duplicated BFS
@@ -477,7 +595,7 @@ func runC05(tier, replay string) int {
 	ev.Coverage = common.Coverage{
 		"states": states, "transitions": tot.Trans, "traces_validated_against_impl": tot.Traces, "samples": tot.Samples,
 		"evaluations": tot.Traces, "distinct_nontrivial": tot.Traces,
-		"rule":       "every history over 27 operations {record(key in {inter-node pair, intra IPv4, intra IPv6}, reporting stream, end-time step in {2,10}, counter increment in {+0, +small, +2^40}), active export with reset, reset through ForAllRecordsDo, inactive expiry} up to depth 4 (thorough: additionally depth 6 over a reduced alphabet of 11 operations), generated within the statement's contract (per node: end strictly increasing, totals non-decreasing, end > start; no cross-node end-time ties); after every operation every field of every aggregated record is compared with the arithmetic model (aggmodel, DESIGN Appendix B.1). Histories are distinct by construction; distinct_nontrivial counts them (each contains at least one record or export). Thorough adds a depth-bounded BFS de-duplicated on all record values (the graph does not close: counters grow)",
+		"rule":       "every history over 27 operations {record(key in {inter-node pair, intra IPv4, intra IPv6}, reporting stream, end-time step in {2,10}, counter increment in {+0, +small, +(2^56+3)}), active export with reset, reset through ForAllRecordsDo, inactive expiry} up to depth 4 (thorough: additionally depth 6 over a reduced alphabet of 11 operations); a second configuration runs the alphabet plus a two-flow message to depth 3 (thorough 4) with every record encoded by the library, decoded by a real collecting process and aggregated as delivered, generated within the statement's contract (per node: end strictly increasing, totals non-decreasing, end > start; no cross-node end-time ties); after every operation every field of every aggregated record is compared with the arithmetic model (aggmodel, DESIGN Appendix B.1). Histories are distinct by construction; distinct_nontrivial counts them (each contains at least one record or export). Thorough adds a depth-bounded BFS de-duplicated on all record values (the graph does not close: counters grow)",
 		"exhaustive": tot.Exhaustive, "per_config": tot.PerCfg,
 	}
 	ev.Assumptions = []string{"common total counters: any of {latest by end time, maximum, latest by arrival} is accepted where the readings differ", "first record of a node: throughput is measured since flow start"}
